@@ -20,7 +20,8 @@ EXPLANATION = (
     "R1: the sponge parameter can influence every verifier's outcome (a proof is bound to the transcript it was made "
     "for); R1all: a variable that holds a squeezed challenge on some path holds one at every use (a combiner "
     "initialised with a constant and only later overwritten by a challenge leaves the first element unbound); R1ret: a "
-    "helper that is handed the sponge and returns transcript-derived values does so on every non-refusing return. Equality of sponge *states* needs the sponge's semantics and is not decided; longer histories follow by "
+    "helper that is handed the sponge and returns transcript-derived values does so on every non-refusing return; R7c: "
+    "every absorb / squeeze acts on (a reborrow of) the sponge the entry point was handed, never on a copy. Equality of sponge *states* needs the sponge's semantics and is not decided; longer histories follow by "
     "composition.")
 RULE = ("instances = 18 (scheme, operation) pairs x tree equality + verifier anchors x sponge liveness; floor: at least "
         "30 sponge operations classified")
@@ -124,4 +125,5 @@ def run(rep, ctx, tier):
         ok, p = R1.reach_from(ctx, g, [(a.body.id, a.roles["sponge"])])
         R1A.run(rep, ctx, a, "R1all")
         R1A.run_returns(rep, ctx, a, "R1ret")
+        R1A.run_sponge_identity(rep, ctx, a, "R7c")
         rep.add("R1", "%s:sponge" % a.key, ok, "the transcript %s the verifier's outcome" % ("can influence" if ok else "cannot influence"), a.body.span)
